@@ -448,7 +448,13 @@ func ruleLoopChecksContext(c *Check, p *Prog, root *ssa.Function) {
 		// every cycle through the header passes a select with ctx.Done
 		var succ []*Node
 		succ = append(succ, head)
-		path := g.PathAvoiding(succ, func(x *Node) bool { return x == head }, doneSel)
+		// a cycle of this loop stays inside this activation of its function: leaving through a
+		// return and coming back by way of the caller's loop is the caller's cycle
+		leaves := func(x *Node) bool {
+			_, isRet := x.In.(*ssa.Return)
+			return isRet && x.Ctx == l.ctx && l.ctx.Depth > 0
+		}
+		path := g.PathAvoiding(succ, func(x *Node) bool { return x == head }, orPred(doneSel, leaves))
 		if path != nil {
 			c.Bad("C13-R4", inst+" ⟂ every-cycle-checks-ctx", fnName(l.fn), p.Pos(l.fn.Pos()), "a cycle of the worker's outermost loop does not pass a select with a ctx.Done case: the loop cannot be stopped there", g.DescribePath(path))
 			continue
